@@ -506,7 +506,7 @@ class Impl:
         for k in sorted(self.letters):
             v, v2 = g.get_parameter(k), s.get_parameter(k)
             if (v is None) != (v2 is None) or (v is not None and v != v2):
-                ps.append(f"{k}:MISMATCH({v!r},{v2!r})")
+                ps.append(f"{k}:MISMATCH({v!r}|{v2!r})".replace(",", ";").replace(" ", ""))
             elif v is not None:
                 ps.append(f"{k}:{canon_float(v)}")
         last = "-"
